@@ -74,6 +74,19 @@ func (mls *MetaLeaseSet) Verify() error {
 // Otherwise, the Destination's signing public key is returned.
 func (mls *MetaLeaseSet) signingPublicKeyForVerification() (types.SigningPublicKey, error) {
 	if mls.HasOfflineKeys() && mls.offlineSignature != nil {
+		// The transient key is only authorised if the offline signature over it
+		// verifies under the Destination's own signing key.
+		destKey, err := mls.destination.SigningPublicKey()
+		if err != nil {
+			return nil, oops.Errorf("failed to get signing public key from Destination: %w", err)
+		}
+		ok, err := mls.offlineSignature.VerifySignature(destKey.Bytes())
+		if err != nil {
+			return nil, oops.Errorf("failed to verify offline signature: %w", err)
+		}
+		if !ok {
+			return nil, oops.Errorf("offline signature is not valid under the Destination's signing key")
+		}
 		// Use transient signing public key from offline signature
 		transientKeyBytes := mls.offlineSignature.TransientPublicKey()
 		transientSigType := mls.offlineSignature.TransientSigType()
